@@ -36,6 +36,8 @@ class C16(Prop):
             yield c
         for c in self.two_digit_cases(rng, tier):
             yield c
+        for c in self.unit_cases(rng, tier):
+            yield c
         N = 300 if tier == "quick" else 6000
         for i in range(N):
             rule = ["KARV", "TSF", "DIST"][i % 3]
@@ -97,6 +99,22 @@ class C16(Prop):
             yield dict(entry={"KARV": "KARV.scf", "TSF": "LambdaTSF.scf"}[rule], family=rule.lower() + "_two_digit_spike", rule=rule, P=P, V=V, k=k, tb="accept", zi=True,
                        want_out=True, seed=i, eclass=["lambda", "profile"][i % 2], ezi=True)
 
+    def unit_cases(self, rng, tier):
+        # near-tight instances (every agent has its own favourite, all share a second choice worth almost as much: that one is the welfare optimum by a
+        # factor ~n) with the utilities measured in very small and very large units (exact powers of two): the guarantee does not depend on the unit
+        for i in range(24 if tier == "quick" else 400):
+            m = rng.randint(9, 12); n = m - 1; k = 1 + (i % 3 == 2)
+            u = 2.0 ** [-600, -700, -1000, 0, 500, -1020][i % 6]
+            P, V = [], []
+            for a in range(n):
+                rest = [j for j in range(m) if j not in (a, m - 1)]; rng.shuffle(rest); order = [a, m - 1] + rest
+                rk = [0] * m; vv = [0.0] * m
+                for pos, j in enumerate(order):
+                    rk[j] = pos + 1; vv[j] = u if pos == 0 else 0.99 * u if pos == 1 else 0.0
+                P.append(rk); V.append(vv)
+            yield dict(entry="KARV.scf", family="karv_unit", rule="KARV", P=P, V=V, k=k, tb=["accept", "first", "random"][i % 3], zi=True, want_out=True, seed=i,
+                       eclass="lambda", ezi=True)
+
     def gap_cases(self, rng, tier):
         # every agent has its own favourite (value 1) and all share a second choice valued just BELOW some threshold level l* and above
         # the next one: level l* adds nothing for anybody, level l*+1 adds the common alternative, which is the welfare optimum
@@ -156,7 +174,7 @@ class C16(Prop):
         return None
 
     def coq(self, case, obs):
-        if case["rule"] == "DIST": return None
+        if case["rule"] == "DIST" or case["family"] == "karv_unit": return None      # (unit family: oracle only; thousand-bit rationals make the kernel evaluation slow)
         P, V, k = case["P"], case["V"], case["k"]; n, m = len(P), len(P[0]); rk = E.ranking(P)
         fav = [rk[i][0] for i in range(n)]
         tau = E.thresholds([V[i][fav[i]] for i in range(n)], m, k)
